@@ -60,10 +60,13 @@ impl Projector {
     }
 
     fn key_of(&self, pk: &schema::PublicKey) -> Value {
+        // a key record stands for (algorithm, bytes): the algorithm tag on the wire must be the key's
         self.keys
             .get(&pk.key)
+            .filter(|k| keys::alg_code(k["alg"].as_str().unwrap()) == pk.algorithm)
             .cloned()
-            .unwrap_or_else(|| json!({"id": "unknown", "alg": "none"}))
+            // a key nobody declared: it stands for its own wire form (layout.rs understands "raw:<algorithm tag>")
+            .unwrap_or_else(|| json!({"id": format!("unknown:{}", hex::encode(&pk.key)), "alg": format!("raw:{}", pk.algorithm)}))
     }
 
     fn payload_id(&mut self, bytes: &[u8]) -> String {
@@ -349,6 +352,29 @@ pub fn record_run(run: usize, seed: u64) -> (Vec<Value>, HashMap<String, u32>) {
             }
         }
     }
+    // byte-level variants of the serialized tokens, offered to every entry point under the token's root key:
+    // whatever is ACCEPTED is recorded (projected) and must be the same signed token for the spec (TAdmit)
+    let ntoks = r.toks.len();
+    for idx in 0..ntoks.min(4) {
+        let bytes = r.toks[idx].0.to_vec();
+        let rootpk = keys::public_of(&r.toks[idx].1);
+        for (kind, v) in variants(&mut rng, &bytes) {
+            if v == bytes {
+                continue;
+            }
+            for (path, res) in crate::chain::admit(&v, rootpk) {
+                match res {
+                    Ok(_) => {
+                        let mode = match path { "legacy" => "legacy", "mixed" => "mixed", _ => "std" };
+                        let tok = r.p.project(&v);
+                        r.events.push(json!({"ev": "admit", "from": idx + 1, "path": path, "mode": mode, "kind": kind, "tok": tok}));
+                    }
+                    Err(e) if e.starts_with("PANIC") => r.events.push(json!({"ev": "admit-panic", "from": idx + 1, "path": path, "kind": kind, "error": e})),
+                    Err(_) => {}
+                }
+            }
+        }
+    }
     // self-check of the projection: concretising the projected token gives back the bytes
     for (t, _) in &r.toks {
         let bytes = t.to_vec();
@@ -360,6 +386,116 @@ pub fn record_run(run: usize, seed: u64) -> (Vec<Value>, HashMap<String, u32>) {
         assert_eq!(back, bytes, "projection/concretisation are not inverse");
     }
     (r.events, r.p.payload_ver)
+}
+
+/// byte-level variants of a serialized token: protobuf re-encodings that keep every signed field
+/// (unknown field, other root key id, other field order, explicit version 0, overlong varint) and
+/// random corruptions (bit flip, byte set, truncation, insertion, deletion, duplicated slice)
+fn variants(rng: &mut StdRng, bytes: &[u8]) -> Vec<(&'static str, Vec<u8>)> {
+    use prost::encoding::{encode_key, encode_varint, WireType};
+    let mut out: Vec<(&'static str, Vec<u8>)> = Vec::new();
+    let mut v = bytes.to_vec();
+    v.extend_from_slice(&[0x78, 0x01]);
+    out.push(("unknown-field", v));
+    if let Ok(t) = schema::Biscuit::decode(bytes) {
+        let mut t2 = t.clone();
+        t2.root_key_id = Some(t.root_key_id.map(|x| x + 1).unwrap_or(9));
+        out.push(("root-key-id", t2.encode_to_vec()));
+        let mut t3 = t.clone();
+        for b in t3.blocks.iter_mut().chain(std::iter::once(&mut t3.authority)) {
+            if b.version.is_none() {
+                b.version = Some(0);
+            }
+        }
+        out.push(("explicit-version-0", t3.encode_to_vec()));
+        // another field order: proof, blocks, authority, root key id
+        let mut v = Vec::new();
+        let field = |tag: u32, m: &[u8], v: &mut Vec<u8>| {
+            encode_key(tag, WireType::LengthDelimited, v);
+            encode_varint(m.len() as u64, v);
+            v.extend_from_slice(m);
+        };
+        field(4, &t.proof.encode_to_vec(), &mut v);
+        for b in &t.blocks {
+            field(3, &b.encode_to_vec(), &mut v);
+        }
+        field(2, &t.authority.encode_to_vec(), &mut v);
+        if let Some(k) = t.root_key_id {
+            encode_key(1, WireType::Varint, &mut v);
+            encode_varint(k as u64, &mut v);
+        }
+        out.push(("field-order", v));
+        // variants that CHANGE something signed: all of them must be refused
+        let nb = t.blocks.len();
+        let mut t4 = t.clone();
+        { let b = if nb == 0 { &mut t4.authority } else { &mut t4.blocks[nb - 1] }; b.signature.push(0); }
+        out.push(("signature-trailing-byte", t4.encode_to_vec()));
+        let mut t5 = t.clone();
+        t5.authority.signature.push(0);
+        out.push(("authority-signature-trailing-byte", t5.encode_to_vec()));
+        let mut t6 = t.clone();
+        { let b = if nb == 0 { &mut t6.authority } else { &mut t6.blocks[nb - 1] }; b.next_key.algorithm = 2; }
+        out.push(("next-key-unknown-algorithm", t6.encode_to_vec()));
+        let mut t7 = t.clone();
+        t7.authority.next_key.algorithm = 1 - t7.authority.next_key.algorithm;
+        out.push(("authority-next-key-other-algorithm", t7.encode_to_vec()));
+        if nb >= 1 {
+            let mut t8 = t.clone();
+            t8.blocks.pop();
+            out.push(("drop-last-block", t8.encode_to_vec()));
+            let mut t9 = t.clone();
+            let n = t9.blocks[nb - 1].block.len();
+            if n > 0 { t9.blocks[nb - 1].block[n - 1] ^= 1; }
+            out.push(("last-payload-bit", t9.encode_to_vec()));
+        }
+        if nb >= 2 {
+            let mut t10 = t.clone();
+            t10.blocks.swap(nb - 1, nb - 2);
+            out.push(("swap-last-blocks", t10.encode_to_vec()));
+        }
+        // overlong varint for the length of the authority block (field 2 comes first when there is no root key id)
+        if t.root_key_id.is_none() && bytes.len() > 3 && bytes[0] == 0x12 {
+            let mut len = 0u64;
+            let mut i = 1;
+            let mut shift = 0;
+            while i < bytes.len() {
+                len |= ((bytes[i] & 0x7f) as u64) << shift;
+                shift += 7;
+                i += 1;
+                if bytes[i - 1] & 0x80 == 0 {
+                    break;
+                }
+            }
+            let mut v = vec![0x12];
+            let mut n = len;
+            let mut enc = Vec::new();
+            loop {
+                let b = (n & 0x7f) as u8;
+                n >>= 7;
+                if n == 0 { enc.push(b); break; } else { enc.push(b | 0x80); }
+            }
+            // make it one byte longer than necessary: continuation bit on the last byte + a zero byte
+            let last = enc.len() - 1;
+            enc[last] |= 0x80;
+            enc.push(0x00);
+            v.extend(enc);
+            v.extend_from_slice(&bytes[i..]);
+            out.push(("overlong-varint", v));
+        }
+    }
+    for _ in 0..12 {
+        let mut v = bytes.to_vec();
+        let kind: &'static str = match rng.gen_range(0..6) {
+            0 => { let i = rng.gen_range(0..v.len()); v[i] ^= 1 << rng.gen_range(0..8); "bit-flip" }
+            1 => { let i = rng.gen_range(0..v.len()); v[i] = [0x00, 0xff, 0x7f, 0x80][rng.gen_range(0..4)]; "byte-set" }
+            2 => { let i = rng.gen_range(1..v.len()); v.truncate(i); "truncate" }
+            3 => { let i = rng.gen_range(0..=v.len()); v.insert(i, rng.gen()); "insert" }
+            4 => { let i = rng.gen_range(0..v.len()); v.remove(i); "delete" }
+            _ => { let i = rng.gen_range(0..v.len()); let j = rng.gen_range(i..v.len().min(i + 40)); let chunk = v[i..=j.min(v.len() - 1)].to_vec(); v.splice(i..i, chunk); "duplicate-slice" }
+        };
+        out.push((kind, v));
+    }
+    out
 }
 
 pub fn cmd_record(nruns: usize, out: &str) {
